@@ -1225,7 +1225,7 @@ func genDedupStream(c *hlib.Ctx) string {
 }
 
 func genC03(c *hlib.Ctx) {
-	n := c.N(1500, 60000)
+	n := c.N(1500, 40000)
 	for i := 0; i < n; i++ {
 		c.Do(genMergeCase(c, 4, true), true)
 		if i%3 == 0 {
